@@ -1288,7 +1288,9 @@ fn mld_records(src: &mut Src, ctx: &mut Ctx) -> R {
             ));
         }
     }
-    let len = declared + recs.iter().map(|x| x.buffer_len()).sum::<usize>();
+    // buffer_len() now covers the records (fix 1c6e07e); before that fix the in-tree caller
+    // added the record lengths itself
+    let len = declared;
     let gseed = src.u64();
     let (bytes, diffs) = match emit3(len, gseed, &mut |b: &mut [u8]| r.emit(&sa, &da, &mut Icmpv6Packet::new_unchecked(&mut b[..]), &caps)) {
         Ok(v) => v,
@@ -1916,7 +1918,8 @@ const IEEE_FV: [Ieee802154FrameVersion; 3] =
 ///    :991),
 ///  * for version 2015 not both addresses Extended (there the table drops a PAN id, :469-470).
 /// security_enabled needs an auxiliary security header behind the MAC header, which is
-/// payload from the repr's point of view; the harness appends >= 14 payload octets then.
+/// payload from the repr's point of view; the harness appends >= 32 payload octets then
+/// (security control 1 + frame counter 4 + key identifier <= 9 + MIC <= 16).
 fn ieee_ok(r: &Ieee802154Repr) -> bool {
     let sx = |a: &Option<Ieee802154Address>| matches!(a, Some(Ieee802154Address::Short(_)) | Some(Ieee802154Address::Extended(_)));
     IEEE_FT.contains(&r.frame_type)
@@ -1935,7 +1938,7 @@ fn drive_ieee(src: &mut Src, ctx: &mut Ctx, r: &Ieee802154Repr, plen: usize) -> 
     const K_OR: &str = "ieee802154:buffer-dependent:fc-flag-setters-only-set";
     const K_RES: &str = "ieee802154:buffer-dependent:fc-bits-7-9-unwritten";
     drive!(src, ctx, "ieee802154", r;
-        len(r) { r.buffer_len() + if r.security_enabled { plen.max(14) } else { plen } }
+        len(r) { r.buffer_len() + if r.security_enabled { plen.max(32) } else { plen } }
         emit(r, buf) {
             r.emit(&mut Ieee802154Frame::new_unchecked(&mut buf[..]));
             let h = r.buffer_len();
